@@ -72,7 +72,7 @@ class RoundTrip(Obligation):
             bp=b.struct('ByProducts',return_value=rv,stderr=se,stdout=so,other_fields=b.btreemap(other))
             # a free extra key must not collide with the fixed member names
             for kk,_ in other:
-                for res in (b'return-value',b'stderr',b'stdout'):
+                for res in (b'return-value',b'stderr',b'stdout')+((b'zz',) if len(other)==2 and kk is other[0][0] else ()):      # a map holds each key once
                     from mirsym.models import bytes_eq
                     c=bytes_eq(kk.b,list(res))
                     if not (c.conc() and not c.v): run.add(z3.Not(c.z()))
